@@ -142,6 +142,14 @@ def diff_from_lcs(A: "Seq[V]", B: "Seq[V]", A_indices: "Seq[int]", B_indices: "S
     finally_check(result == after_loop(1, di._diff) + result[len(after_loop(1, di._diff)):])
     finally_hint(fold1(A, B, compare, after_loop(1, di._diff), result[len(after_loop(1, di._diff)):]))
     finally_hint(fold2(A, B, compare, after_loop(1, di._diff), result[len(after_loop(1, di._diff)):]))
+    finally_check(implies(len(result) > len(after_loop(1, di._diff)),
+                          al_step(A, B, compare, rtake(A, after_loop(1, di._diff)), len(rout(A, after_loop(1, di._diff))),
+                                  result[len(after_loop(1, di._diff))])))
+    finally_check(implies(len(result) > len(after_loop(1, di._diff)) + 1,
+                          al_step(A, B, compare,
+                                  rtake(A, after_loop(1, di._diff) + [result[len(after_loop(1, di._diff))]]),
+                                  len(rout(A, after_loop(1, di._diff) + [result[len(after_loop(1, di._diff))]])),
+                                  result[len(after_loop(1, di._diff)) + 1])))
     with loop(1):
         invariant(N == len(A) and M == len(B) and llcs == len(A_indices))
         invariant(0 <= x and x <= N and 0 <= y and y <= M)
@@ -159,6 +167,76 @@ def diff_from_lcs(A: "Seq[V]", B: "Seq[V]", A_indices: "Seq[int]", B_indices: "S
         finally_check(di._diff == at_head(di._diff) + di._diff[len(at_head(di._diff)):])
         finally_hint(fold1(A, B, compare, at_head(di._diff), di._diff[len(at_head(di._diff)):]))
         finally_hint(fold2(A, B, compare, at_head(di._diff), di._diff[len(at_head(di._diff)):]))
+        finally_check(implies(len(di._diff) > len(at_head(di._diff)),
+                              al_step(A, B, compare, rtake(A, at_head(di._diff)), len(rout(A, at_head(di._diff))),
+                                      di._diff[len(at_head(di._diff))])))
+        finally_check(implies(len(di._diff) > len(at_head(di._diff)) + 1,
+                              al_step(A, B, compare,
+                                      rtake(A, at_head(di._diff) + [di._diff[len(at_head(di._diff))]]),
+                                      len(rout(A, at_head(di._diff) + [di._diff[len(at_head(di._diff))]])),
+                                      di._diff[len(at_head(di._diff)) + 1])))
         finally_check(0 <= rtake(A, di._diff) and rtake(A, di._diff) <= i)
         finally_check(len(rout(A, di._diff)) + i - rtake(A, di._diff) == j)
         finally_check(cmp(compare, A[i], B[j]))
+
+
+# ------------------------------------------------------------------ brute-force LCS
+
+@contract("nbdime.diffing.seq_bruteforce.bruteforce_compare_grid", properties=["C02", "C01"])
+def bruteforce_compare_grid(A: "Seq[V]", B: "Seq[V]", compare: "fn") -> "Seq[Seq[bool]]":
+    ensures(len(result) == len(A))
+    ensures(all(len(result[i]) == len(B) for i in range(len(A))))
+    ensures(all(result[i][j] == cmp(compare, A[i], B[j]) for i in range(len(A)) for j in range(len(B))))
+
+
+@contract("nbdime.diffing.seq_bruteforce.bruteforce_llcs_grid", properties=["C02", "C01"])
+def bruteforce_llcs_grid(G: "Seq[Seq[bool]]") -> "Seq[Seq[int]]":
+    requires(all(len(G[i]) == len(G[0]) for i in range(len(G))))
+    ensures(len(result) == len(G) + 1)
+    ensures(all(len(result[a]) == (len(G[0]) if len(G) > 0 else 0) + 1 for a in range(len(G) + 1)))
+    ensures(all(result[a][b] == (result[a - 1][b - 1] + 1 if G[a - 1][b - 1]
+                                 else max(result[a - 1][b], result[a][b - 1]))
+                for a in range(1, len(G) + 1) for b in range(1, (len(G[0]) if len(G) > 0 else 0) + 1)))
+    with loop(1):
+        invariant(N == len(G) and M == (len(G[0]) if N > 0 else 0) and M >= 0)
+        invariant(len(R) == N + 1 and all(len(R[a]) == M + 1 for a in range(N + 1)))
+        invariant(all(R[a][b] == (R[a - 1][b - 1] + 1 if G[a - 1][b - 1] else max(R[a - 1][b], R[a][b - 1]))
+                      for a in range(1, x) for b in range(1, M + 1)))
+    with loop(2):
+        invariant(N == len(G) and M == (len(G[0]) if N > 0 else 0) and M >= 0 and 1 <= x and x <= N)
+        invariant(len(R) == N + 1 and all(len(R[a]) == M + 1 for a in range(N + 1)))
+        invariant(all(R[a][b] == (R[a - 1][b - 1] + 1 if G[a - 1][b - 1] else max(R[a - 1][b], R[a][b - 1]))
+                      for a in range(1, x) for b in range(1, M + 1)))
+        invariant(all(R[x][b] == (R[x - 1][b - 1] + 1 if G[x - 1][b - 1] else max(R[x - 1][b], R[x][b - 1]))
+                      for b in range(1, y)))
+
+
+@contract("nbdime.diffing.seq_bruteforce.bruteforce_lcs_indices", properties=["C02", "C01"])
+def bruteforce_lcs_indices(A: "Seq[V]", B: "Seq[V]", G: "Seq[Seq[bool]]", R: "Seq[Seq[int]]",
+                           compare: "fn") -> "Tuple[Seq[int],Seq[int]]":
+    requires(len(G) == len(A) and all(len(G[i]) == len(B) for i in range(len(A))))
+    requires(len(R) == len(A) + 1 and (len(A) == 0 or all(len(R[a]) == len(B) + 1 for a in range(len(A) + 1))))
+    requires(all(R[a][b] == (R[a - 1][b - 1] + 1 if G[a - 1][b - 1] else max(R[a - 1][b], R[a][b - 1]))
+                 for a in range(1, len(A) + 1) for b in range(1, len(B) + 1)))
+    ensures(len(result[0]) == len(result[1]))
+    ensures(all(0 <= result[0][r] and result[0][r] < len(A) and 0 <= result[1][r] and result[1][r] < len(B)
+                for r in range(len(result[0]))))
+    ensures(all(result[0][r] < result[0][r + 1] and result[1][r] < result[1][r + 1]
+                for r in range(len(result[0]) - 1)))
+    ensures(all(G[result[0][r]][result[1][r]] for r in range(len(result[0]))))
+    local(A_indices="Seq[int]", B_indices="Seq[int]")
+    with loop(1):
+        invariant(N == len(A) and M == len(B) and 0 <= x and x <= N and 0 <= y and y <= M)
+        invariant(len(A_indices) == len(B_indices))
+        invariant(all(x <= A_indices[r] and A_indices[r] < N and y <= B_indices[r] and B_indices[r] < M
+                      for r in range(len(A_indices))))
+        invariant(all(A_indices[r] > A_indices[r + 1] and B_indices[r] > B_indices[r + 1]
+                      for r in range(len(A_indices) - 1)))
+        invariant(all(G[A_indices[r]][B_indices[r]] for r in range(len(A_indices))))
+        decreases(x + y)
+
+
+@contract("nbdime.diffing.seq_bruteforce.diff_sequence_bruteforce", properties=["C02", "C11", "C01"])
+def diff_sequence_bruteforce(A: "Seq[V]", B: "Seq[V]", compare: "fn") -> "Seq[E]":
+    ensures(wf_seq(result, len(A)))
+    ensures(aligned(A, B, result, compare))
